@@ -74,6 +74,9 @@ class Program:
         s.paths = {}         # machine name -> path tuple of state names from root
         s._paths(root, ())
 
+    def machine(s, name):
+        return [m for m in s.machines if m.name == name][0]
+
     def _index(s, m, path):
         m.idx = len(s.machines); s.machines.append(m)
         m.self_idx = len(s.all_states); s.all_states.append(m)
@@ -345,7 +348,11 @@ class Sem:
         while s.c.queue:
             n += 1
             if n > 12: raise RuntimeError('queue does not drain')
-            ev, pay = s.c.queue.pop(0)
+            ent = s.c.queue.pop(0)
+            if ent[0] == '<c>':
+                s.comp = [(s.prog.machine(ent[1]), ent[2], ent[3])] + s.comp
+                s.run_completions(); continue
+            ev, pay = ent
             if s.blocked(ev): continue
             if s.is_deferred(ev): s.c.deferred.append(DefEnt((ev, pay))); continue
             s.run_one(ev, pay)
@@ -377,20 +384,44 @@ class Sem:
     def run_completions(s):
         n = 0
         while s.comp:
-            m, r, name = s.comp.pop(0)
-            if m not in s.c.active_machines() or s.c.m[m.name]['active'][r] != name: continue
-            if s.blocked(None): continue
             n += 1
-            if n > 12: raise RuntimeError('completion chain does not end')
-            s.pay = '-1'
-            cands = [x for x in reversed(m.rows) if x.src == name and x.evt is None]
-            try:
-                for row in cands:
-                    if row.guard is not None and not s.ctx.guard(row.guard, 'Q'): continue
-                    s.take(m, r, row, None)
-                    break
-            except ModelThrow:
-                s.ctx.log.append(('C', m.idx, s.pay))
+            if n > 24: raise RuntimeError('completion chain does not end')
+            s.run_completion_once()
+
+    def run_completion_once(s):
+        m, r, name = s.comp.pop(0)
+        if m not in s.c.active_machines() or s.c.m[m.name]['active'][r] != name: return
+        if s.blocked(None): return
+        s.pay = '-1'
+        cands = [x for x in reversed(m.rows) if x.src == name and x.evt is None]
+        try:
+            for row in cands:
+                if row.guard is not None and not s.ctx.guard(row.guard, 'Q'): continue
+                s.take(m, r, row, None)
+                break
+        except ModelThrow:
+            s.ctx.log.append(('C', m.idx, s.pay))
+
+    # ---- backmp11 single-step mode (Program.pool_completions): a completion event is an entry of the event pool, pushed to
+    # its front when the source state is entered; process_event_pool(1) dispatches exactly one entry, event or completion
+    def comp_to_markers(s):
+        for m, r, name in s.comp: s.c.queue.insert(0, ('<c>', m.name, r, name))
+        s.comp = []
+
+    def exec_one_pooled(s):
+        if not s.c.queue: return
+        ent = s.c.queue.pop(0)
+        if ent[0] == '<c>':
+            s.comp = [(s.prog.machine(ent[1]), ent[2], ent[3])]
+            s.run_completion_once()
+        else:
+            ev, pay = ent
+            if s.blocked(ev): return
+            if s.is_deferred(ev): s.c.deferred.append(DefEnt((ev, pay))); return
+            s.pay = pay
+            res = s.process_in_machine(s.prog.root, ev, True)
+            if res & H_TRUE: s.release_deferred()
+        s.comp_to_markers()
 
     def process_in_machine(s, m, ev, toplevel):
         cm = s.c.m[m.name]
@@ -587,6 +618,8 @@ def run_step(sem, st):
         sem.c.queue.append((st[1], st[2] if len(st) > 2 else 'P')); return None
     if st[0] == 'execq':        # execute_queued_events / process_event_pool
         sem.drain(); return None
+    if st[0] == 'exec1' and getattr(sem.prog, 'pool_completions', False):
+        sem.exec_one_pooled(); return None
     if st[0] == 'exec1':        # single-step variant: exactly the oldest pending event
         if sem.c.queue:
             ev, pay = sem.c.queue.pop(0)
